@@ -37,7 +37,7 @@ ASSUMPTIONS = [
   'inexact arithmetic (Adam square roots, Welford moments, jit-vs-eager fusion) is compared with rtol=1e-5 (Welford 1e-4); everything else bytewise',
   'one fault kind: the wrapped optax transformation raises inside an eager Optimizer.update; read narrowly - a failed update is not an update, so step counter, parameters and optimizer state stay what the hand-written loop (which skipped that step) has, and the exception reaches the caller',
 ]
-PROBES = ['opt_nnx_optimizer', 'opt_nnx_trainstate', 'opt_linen_trainstate', 'step_jit', 'step_eager', 'jit_eager_alternation', 'non_wrt_edit', 'shared_param', 'multisteps', 'schedule', 'metric_average', 'metric_accuracy', 'metric_welford', 'metric_multi', 'metric_reset', 'metric_jit', 'metric_empty_nan', 'metric_repartition', 'metric_big_stream', 'mixed_precision_params', 'param_with_set_hook', 'linen_trainstate_overwrite_with_gradient', 'metric_low_precision_values']
+PROBES = ['opt_nnx_optimizer', 'opt_nnx_trainstate', 'opt_linen_trainstate', 'step_jit', 'step_eager', 'jit_eager_alternation', 'non_wrt_edit', 'shared_param', 'multisteps', 'schedule', 'metric_average', 'metric_accuracy', 'metric_welford', 'metric_multi', 'metric_reset', 'metric_jit', 'metric_empty_nan', 'metric_repartition', 'metric_big_stream', 'mixed_precision_params', 'param_with_set_hook', 'param_metadata_edited_after_optimizer_creation', 'linen_trainstate_overwrite_with_gradient', 'metric_low_precision_values']
 
 
 def setup_worker(w, tier):
@@ -63,8 +63,11 @@ def generate(rs, tier):
       ops.append(dict(op='step', jit=False, gseed=g.randrange(100), fail=True))
     elif r < 0.8:
       ops.append(dict(op='step', jit=g.random() < 0.35, gseed=g.randrange(100)))
-    else:
+    elif r < 0.93:
       ops.append(dict(op='edit', target=g.randrange(64), delta=g.randrange(1, 5)))
+    else:
+      # the user tags one of the optimised parameters (metadata) after the optimizer was created
+      ops.append(dict(op='meta_edit', target=g.randrange(64), key=g.choice(['tag', 'group']), value=g.choice(['decay', 'frozen', 1])))
   return dict(
     engine='nnxworld',
     knobs=dict(kind='optimizer', hooks=g.random() < 0.25, owg=g.random() < 0.3, frozen=g.random() < 0.4, build=build, tx=g.choice(['sgd', 'momentum', 'adam', 'adamw', 'clip_sgd', 'schedule', 'multisteps']), wrapper=g.choice(['nnx.Optimizer', 'nnx.Optimizer', 'nnx.TrainState', 'linen.TrainState']), wrt=g.choice(['Param', 'Param', 'SubParam', 'ParamOrCustom']), pdtype=g.choice(['float32', 'float32', 'float32', 'bfloat16'])),
@@ -96,8 +99,15 @@ def gen_metric(g):
 SHRINK_LISTS = ['ops']
 
 
+STATEFUL_TX = ('momentum', 'adam', 'adamw', 'multisteps')
+
+
 def signature(plan, v):
-  return dict(kind=plan['knobs']['kind'])
+  k = plan['knobs']
+  sig = dict(kind=k['kind'])
+  if k['kind'] == 'optimizer':
+    sig['metadata_edited_then_stateful_update'] = bool(k['wrapper'] == 'nnx.Optimizer' and k['tx'] in STATEFUL_TX and any(o.get('op') == 'meta_edit' for o in plan['ops']))
+  return sig
 
 
 class TxFault(Exception):
@@ -264,6 +274,16 @@ class OptWorld:
       self.log.add(oi, 'edit')
       self.h.check_root(self.root, f'op {oi} edit')
       return
+    if op['op'] == 'meta_edit':
+      if self.wrapper != 'nnx.Optimizer' or not self.sel:
+        return
+      p_, l = self.sel[op['target'] % len(self.sel)]
+      setattr(self.h.real[l.id], op['key'], op['value'])
+      l.meta[op['key']] = op['value']
+      res.probe('param_metadata_edited_after_optimizer_creation')
+      self.log.add(oi, 'meta_edit')
+      self.h.check_root(self.root, f'op {oi} meta_edit')
+      return
     if op.get('fail'):
       if self.wrapper != 'nnx.Optimizer':
         return
@@ -306,6 +326,8 @@ class OptWorld:
     where = f'op {oi} step(jit={jit})'
     if self.wrapper == 'nnx.Optimizer':
       step_before = int(self.opt.step.value)
+      # what nnx.grad would hand back now: the structure (and metadata) of the current parameters, same numbers
+      grads = self.grads_like(nnx.state(self.h.real[self.root], self.real_f), op['gseed'])
       if jit:
         self.jit_update(self.opt, grads)
       else:
